@@ -48,7 +48,7 @@ def _norm(s, k, N, norm, x):
     return s / (N * np.mean(np.abs(x) ** 2))
 
 
-@sub("C09.corr", strategy=corr_case(), quick=500, thorough=30000,
+@sub("C09.corr", strategy=corr_case(), quick=2000, shards_quick=2, thorough=30000,
      doc="CORRELATION(x,y,maxlags,norm)[k] == sum_n x[n+k] conj(y[n]) / {N, N-k, 1, N rms(x)^2}, shorter input zero-padded")
 def c09_corr(ctx, case):
     x = gen.realise(case["x"])
@@ -100,7 +100,7 @@ def xcorr_case(draw):
     return {"x": x, "y": y, "maxlags": maxlags, "norm": draw(st.sampled_from(norms))}
 
 
-@sub("C09.xcorr", strategy=xcorr_case(), quick=500, thorough=30000,
+@sub("C09.xcorr", strategy=xcorr_case(), quick=2000, shards_quick=2, thorough=30000,
      doc="xcorr: same values as the definition at k>=0, conj(r_yx[k]) at -k, lags == arange(-m, m+1)")
 def c09_xcorr(ctx, case):
     x = gen.realise(case["x"])
@@ -241,7 +241,7 @@ def long_case(draw):
             "norm": draw(st.sampled_from(["biased", "unbiased", None] + (["coeff"] if y is None else [])))}
 
 
-@sub("C09.long", strategy=long_case(), quick=120, thorough=4000, shards_quick=2,
+@sub("C09.long", strategy=long_case(), quick=300, thorough=4000, shards_quick=2,
      doc="records of 513..1200 samples (complex and real, auto and cross, unequal lengths): CORRELATION and xcorr vs the lag sums, maxlags <= 6")
 def c09_long(ctx, case):
     x = gen.realise(case["x"])
@@ -263,3 +263,14 @@ def c09_long(ctx, case):
         ctx.check(list(lags) == list(range(-L, L + 1)), "xcorr lags on a long record")
         ctx.close(np.asarray(g2[L:], dtype=complex), exp, "xcorr vs lag sums on a long record (N=%d, norm=%s)" % (N, norm),
                   rtol=1e-9, atol=1e-11 * bound)
+
+
+# ---- number-type invariance (integer samples of a narrow dtype) -------------------
+from vlib import dtypecheck as _dt   # noqa: E402
+
+
+@sub("C09.dtype", strategy=_dt.int_case(sorted(_dt.TABLES["C09"])), quick=300, thorough=6000,
+     doc="the same integer-valued samples stored as int16/int8/uint8/uint16/int32/int64 or as float64 give the same result "
+         "(products of two narrow integers do not fit their dtype): " + ", ".join(sorted(_dt.TABLES["C09"])))
+def c09_dtype(ctx, case):
+    _dt.body(ctx, case, _dt.TABLES["C09"])
